@@ -3,7 +3,7 @@
 # segments.go; bitset.go; tools/extract/code_part4.go) and of LzProofs/GenSuffixProps*.lean,
 # LzProofs/GenBitsetProps.lean.
 #
-# For every mutant: copy the repository to <verif>/scratch-repo, apply one small semantic
+# For every mutant: copy the repository to a fresh directory under /tmp, apply one small semantic
 # change, regenerate LzModel/Generated/Code*.lean from the copy into a COPY of the lake
 # project, and build the GenSuffixProps / GenBitsetProps modules there.
 #   kind proof    : the build must FAIL (the failing theorems are listed)
@@ -20,7 +20,7 @@ REPO="${REPO:-/repo}"
 SCRATCH="$(mktemp -d /tmp/pf-gensuffix-selftest.XXXXXX)"
 LEAN="$SCRATCH/lean"
 GEN="$LEAN/LzModel/Generated"
-MUT="$HERE/scratch-repo"
+MUT="$(mktemp -d /tmp/pf-mutrepo.XXXXXX)/scratch-repo"   # scratch copies of the library live outside /verif and /repo
 EXTRACT="$SCRATCH/extract"
 TARGETS="${TARGETS:-LzProofs.GenSuffixProps LzProofs.GenSuffixPropsSeg LzProofs.GenBitsetProps}"
 bad=0; good=0; total=0
